@@ -162,9 +162,9 @@ def grouping_jobs(tier):
             mods = [((('start', ('rule', None, expected)),), (), 'start', None, (), False, 'named', None)]
             yield {'mods': mods, 'inputs': 'ab,:3', 'mode': 'simple', 'tag': 'grouping', 'pyraise': True,
                    'descs': ['start = %s\n' % text]}
-            # non-vacuity: is the other grouping observably different?  (compiled from its parenthesised rendering)
-            yield {'mods': mods, 'inputs': 'ab,:3', 'mode': 'simple', 'tag': 'OTHER-GROUPING', 'pyraise': True,
-                   'descs': ['start = %s\n' % render.expr(other)], 'probe_only': True}
+            # non-vacuity: is the other grouping observably different?  (decided on the model: both ASTs on every input)
+            yield {'mods': mods, 'inputs': 'ab,:3', 'tag': 'OTHER-GROUPING', 'probe_only': True,
+                   'other': ((('start', ('rule', None, other)),), (), 'start', None, (), False, 'named', None)}
     # postfix forms bind tighter than every binary operator; the operator table is the loosest postfix
     posts = [('?', lambda e: ('opt', e)), ('*', lambda e: ('star', e)), ('+', lambda e: ('plus', e)),
              ('{2}', lambda e: ('rep', e, 2, 2)), ('{1,}', lambda e: ('rep', e, 1, None))]
@@ -190,17 +190,24 @@ def grouping_jobs(tier):
 
 
 def run_job(job):
-    res = e1.run_job(job)
     if job.get('probe_only'):
-        # the other grouping is not an oracle: only count on how many cases it is observably different
-        n = len(res.get('viol_keys', []))
-        res['ctr']['other_grouping_differs'] = n
-        res['ctr']['other_grouping_cases'] = res['ctr'].get('cases', 0)
-        res['ctr']['cases'] = 0
-        res['ctr']['nontrivial'] = 0
-        res['viol'] = []
-        res['viol_keys'] = []
-    return res
+        # the other grouping is not an oracle: only count on how many inputs the two groupings differ observably
+        from ..model import Model, IllFormed, plain
+        a, b = e1.mk_specs(job['mods']), e1.mk_specs([job['other']])
+        n = d = 0
+        for t in e1.input_set(job['inputs']):
+            try:
+                ra = Model(a).parse('start', t)
+                rb = Model(b).parse('start', t)
+            except Exception:
+                continue
+            n += 1
+            ca = None if ra is None else (plain(ra[0]), ra[1])
+            cb = None if rb is None else (plain(rb[0]), rb[1])
+            if ca != cb:
+                d += 1
+        return {'ctr': {'other_grouping_differs': d, 'other_grouping_cases': n}, 'sets': {}, 'viol': [], 'viol_keys': []}
+    return e1.run_job(job)
 
 
 def jobs(tier):
@@ -216,8 +223,8 @@ def run(tier, seed):
                 '(b) 60 multi-rule grammars x all 288 combinations of {= : =>} x {newline ;} x comments x blank lines x line break '
                 'before/after binary operators x redundant parentheses x ignore/ignored, and bare expression vs start = expr; '
                 '(c) a op1 b op2 c for every ordered pair of the 8 binary operators x every typed operand triple, and every postfix form and '
-                'the operator table against every binary operator, against the grouping stated in grammar.txt (the other grouping is compiled '
-                'too and the number of observably different cases reported); oracle: reference model of the AST; '
+                'the operator table against every binary operator, against the grouping stated in grammar.txt (the number of inputs on which the '
+                'opposite grouping would be observably different is reported); oracle: reference model of the AST; '
                 'non-trivial = the model run needed a restore')
     chk.assumptions = ['reference interpreter', 'constructor forms are not applied to bare inline-Python operands (excepted by the statement)']
     chk.explore(run_job, jobs(tier), chunk=8)
